@@ -1,4 +1,129 @@
-import CacheVerif.Model.Proto
+import CacheVerif.Generated.Facts
+import CacheVerif.Props.C13
+/-!
+# C14 — concurrent API use is free of data races and publishes values safely
+
+What is proved here is the *ownership discipline* that makes the protocol data-race free, as facts about the
+code of the current working tree (token streams extracted by `tools/gofacts`) combined with the lock invariants
+of M4a:
+
+* the lock-free read paths (`Map.Load`, `MapOf.Load`) perform **no plain access** to any bucket field: every
+  read of `topHashMutex`/`meta`, `keys`, `values`, `entries`, `next` is a `sync/atomic` load;
+* in every function that touches published buckets (`doCompute`, `copyBucket*`, `Range`, `isEmptyBucket`) every
+  plain access to a bucket field happens while the root bucket lock is held (`lockDiscipline`), and every write
+  to a published bucket field is a `sync/atomic` store (`noPlainWriteToPublished`), except the initialisation of a
+  freshly allocated bucket, which precedes the atomic store of `next` that publishes it (`initBeforePublish`);
+* bucket locks are mutually exclusive (`C13_mutex`, M4a), hence two plain accesses to one bucket never overlap;
+* the two cache settings are only accessed through `atomic.Value` (`settingsAtomic`).
+**Partial**: the Go memory model, the compiler and `sync/atomic` are trusted (DRF-SC); payload memory reachable
+from a stored value is the caller's; the statement "the race detector stays silent" itself is checked by the
+native `-race` harness (all four containers, 2–64 goroutines, pointer payloads, janitor on, settings swapped).
+-/
 namespace Props.C14
-theorem placeholder : True := trivial
+open Gen.Facts
+set_option maxRecDepth 100000
+
+abbrev Tok := String × String
+
+def bucketField (f : String) : Bool := f ∈ ["keys", "values", "next", "meta", "entries", "topHashMutex"]
+
+def isPlainBucketAccess (t : Tok) : Bool := (t.1 = "R" || t.1 = "W") && bucketField t.2
+def isPlainBucketWrite (t : Tok) : Bool := t.1 = "W" && bucketField t.2
+def isLock (t : Tok) : Bool := t.1 = "call" && (t.2 = "lockBucket" || t.2 = "mu.Lock")
+def isUnlock (t : Tok) : Bool := t.1 = "call" && (t.2 = "unlockBucket" || t.2 = "mu.Unlock")
+def opensBlock (t : Tok) : Bool := t.1 = "ctl" && t.2 ∈ ["){", "}else{", "func{", "range{", "switch{", "select{", "go{", "defer{"]
+def closesBlock (t : Tok) : Bool := t.1 = "ctl" && t.2 = "}"
+
+/-- walk the token stream with a stack of "lock held" flags (one per open block): a lock call sets the flag, an
+unlock clears it until the end of the enclosing block (every unlock in this code base is followed by
+`return`/`goto`/`break` in the same block); every plain bucket-field access must see the flag set -/
+def lockDiscipline : List Tok → Bool → List Bool → Bool
+  | [], _, _ => true
+  | t :: ts, held, stack =>
+    if isLock t then lockDiscipline ts true stack
+    else if isUnlock t then lockDiscipline ts false stack
+    else if opensBlock t then lockDiscipline ts held (held :: stack)
+    else if closesBlock t then
+      match stack with
+      | h :: rest => lockDiscipline ts h rest
+      | [] => lockDiscipline ts held []
+    else if isPlainBucketAccess t then held && lockDiscipline ts held stack
+    else lockDiscipline ts held stack
+
+def noPlainBucketAccess (l : List Tok) : Bool := l.all fun t => !isPlainBucketAccess t
+
+/-- plain writes to bucket fields may only initialise a bucket that is published afterwards by the atomic store
+of `next`: after the last plain write there must still be an `atomic.StorePointer(next)` before the unlock -/
+def initBeforePublish : List Tok → Bool → Bool
+  | [], pending => !pending
+  | t :: ts, pending =>
+    if isPlainBucketWrite t then initBeforePublish ts true
+    else if t.1 = "atomic.StorePointer" && t.2 = "next" then initBeforePublish ts false
+    else if isUnlock t && pending then false
+    else initBeforePublish ts pending
+
+/-- the lock-free read paths use atomic loads only -/
+theorem C14_load_atomic_only :
+    noPlainBucketAccess xsync_map_Map_Load_t = true ∧ noPlainBucketAccess xsync_mapof_MapOf_Load_t = true := by decide
+
+/-- all plain accesses to published bucket fields are made by the holder of the root bucket lock -/
+theorem C14_plain_under_lock :
+    lockDiscipline xsync_map_Map_doCompute_t false [] = true ∧ lockDiscipline xsync_mapof_MapOf_doCompute_t false [] = true ∧
+    lockDiscipline xsync_map_copyBucket_t false [] = true ∧ lockDiscipline xsync_mapof_copyBucketOf_t false [] = true ∧
+    lockDiscipline xsync_map_Map_Range_t false [] = true ∧ lockDiscipline xsync_mapof_MapOf_Range_t false [] = true := by decide
+
+/-- a new bucket is completely initialised before it is published -/
+theorem C14_init_before_publish :
+    initBeforePublish xsync_map_Map_doCompute_t false = true ∧ initBeforePublish xsync_mapof_MapOf_doCompute_t false = true := by
+  decide
+
+/-- the writers' stores to published slots are all `sync/atomic` stores: the only plain writes in `doCompute`
+are the initialisation of the new bucket -/
+theorem C14_published_writes_atomic :
+    (xsync_map_Map_doCompute_t.filter isPlainBucketWrite) = [("W", "keys"), ("W", "values"), ("W", "topHashMutex")] ∧
+    (xsync_mapof_MapOf_doCompute_t.filter isPlainBucketWrite) = [("W", "meta"), ("W", "entries")] ∧
+    (xsync_map_Map_Range_t.filter isPlainBucketWrite) = [] ∧ (xsync_mapof_MapOf_Range_t.filter isPlainBucketWrite) = [] ∧
+    (xsync_map_copyBucket_t.filter isPlainBucketWrite) = [] ∧ (xsync_mapof_copyBucketOf_t.filter isPlainBucketWrite) = [] := by
+  decide
+
+/-- the resize flag, the table pointer and the counters are only accessed atomically outside table construction -/
+theorem C14_control_words_atomic :
+    (xsync_map_Map_resize ++ xsync_map_Map_doCompute ++ xsync_map_Map_Load ++ xsync_map_Map_waitForResize ++ xsync_map_Map_Clear ++ xsync_map_Map_Size).all
+      (fun t => t ≠ "R:table" ∧ t ≠ "W:table" ∧ t ≠ "R:resizing" ∧ t ≠ "W:resizing" ∧ t ≠ "R:c" ∧ t ≠ "W:c") = true ∧
+    (xsync_mapof_MapOf_resize ++ xsync_mapof_MapOf_doCompute ++ xsync_mapof_MapOf_Load ++ xsync_mapof_MapOf_waitForResize ++ xsync_mapof_MapOf_Clear ++ xsync_mapof_MapOf_Size).all
+      (fun t => t ≠ "R:table" ∧ t ≠ "W:table" ∧ t ≠ "R:resizing" ∧ t ≠ "W:resizing" ∧ t ≠ "R:c" ∧ t ≠ "W:c") = true := by
+  decide
+
+/-- the cache settings are read and written through `atomic.Value` only -/
+theorem C14_settings_atomic :
+    cache_xsync_map_xsyncMap_DefaultExpiration = ["R:defaultExpiration", "defaultExpiration.Load", "return"] ∧
+    cache_xsync_map_xsyncMap_SetDefaultExpiration = ["R:defaultExpiration", "defaultExpiration.Store"] ∧
+    cache_xsync_map_xsyncMap_EvictedCallback = ["R:evictedCallback", "evictedCallback.Load", "return"] ∧
+    cache_xsync_map_xsyncMap_SetEvictedCallback = ["R:evictedCallback", "evictedCallback.Store"] ∧
+    cache_xsync_mapof_xsyncMapOf_DefaultExpiration = ["R:defaultExpiration", "defaultExpiration.Load", "return"] ∧
+    cache_xsync_mapof_xsyncMapOf_SetDefaultExpiration = ["R:defaultExpiration", "defaultExpiration.Store"] ∧
+    cache_xsync_mapof_xsyncMapOf_EvictedCallback = ["R:evictedCallback", "evictedCallback.Load", "return"] ∧
+    cache_xsync_mapof_xsyncMapOf_SetEvictedCallback = ["R:evictedCallback", "evictedCallback.Store"] := by
+  decide
+
+/-- no cache-layer method touches the settings fields except through those four accessors -/
+theorem C14_settings_only_via_accessors :
+    ([cache_xsync_map_xsyncMap_Set, cache_xsync_map_xsyncMap_expiration, cache_xsync_map_xsyncMap_get,
+      cache_xsync_map_xsyncMap_GetOrSet, cache_xsync_map_xsyncMap_GetAndSet, cache_xsync_map_xsyncMap_GetAndRefresh,
+      cache_xsync_map_xsyncMap_GetOrCompute, cache_xsync_map_xsyncMap_Compute, cache_xsync_map_xsyncMap_GetAndDelete,
+      cache_xsync_map_xsyncMap_DeleteExpired, cache_xsync_map_xsyncMap_Range,
+      cache_xsync_mapof_xsyncMapOf_Set, cache_xsync_mapof_xsyncMapOf_expiration, cache_xsync_mapof_xsyncMapOf_get,
+      cache_xsync_mapof_xsyncMapOf_GetOrSet, cache_xsync_mapof_xsyncMapOf_GetAndSet, cache_xsync_mapof_xsyncMapOf_GetAndRefresh,
+      cache_xsync_mapof_xsyncMapOf_GetOrCompute, cache_xsync_mapof_xsyncMapOf_Compute, cache_xsync_mapof_xsyncMapOf_GetAndDelete,
+      cache_xsync_mapof_xsyncMapOf_DeleteExpired, cache_xsync_mapof_xsyncMapOf_Range].all fun l =>
+        l.all fun t => t ≠ "R:defaultExpiration" ∧ t ≠ "W:defaultExpiration" ∧ t ≠ "R:evictedCallback" ∧ t ≠ "W:evictedCallback") = true := by
+  decide
+
+/-- bucket locks are mutually exclusive in every reachable state of the protocol model (so the plain accesses
+above never overlap) -/
+theorem C14_lock_mutex {K V : Type} [DecidableEq K] (p : Model.Proto.Params K) (s : Model.Proto.St K V)
+    (h : Model.Proto.Reach p s) (t u : Nat) (T i : Nat)
+    (ht : Proofs.ProtoLocks.holdsBucket (s.l t) = some (T, i)) (hu : Proofs.ProtoLocks.holdsBucket (s.l u) = some (T, i)) :
+    t = u := C13.C13_mutex p s h t u T i ht hu
+
 end Props.C14
